@@ -36,7 +36,7 @@ ASSUMPTIONS = {
             'bare-string attribute arguments are not generated (project documents list or tuple)'],
 }
 TIERS = {
-    'C02': {'quick': dict(runs=32000, budget_s=150, hashseeds=4, minimise_s=60),
+    'C02': {'quick': dict(runs=32000, budget_s=400, hashseeds=4, minimise_s=60),
             'thorough': dict(runs=None, budget_s=600, hashseeds=16, minimise_s=240)},
 }
 RUN_LIMIT_S = {'C02': 60}
